@@ -1051,6 +1051,9 @@ impl<'p> Evaluator<'_, 'p> {
     }
 }
 
+/// More digits than any `f64` needs to be represented exactly in decimal.
+const MAX_FLOAT_DIGITS: usize = 1100;
+
 fn render_float_def(
     value: f64,
     prec: usize,
@@ -1063,7 +1066,11 @@ fn render_float_def(
     let value_abs = value.abs();
     let is_neg = value.is_sign_negative() && value != 0.0;
 
-    let mut digits_str = format!("{value_abs:.prec$}");
+    // A `f64` never has more than 1074 fractional digits (and `format!` rejects
+    // precisions above `u16::MAX`), so the remaining ones are zeros.
+    let fmt_prec = prec.min(MAX_FLOAT_DIGITS);
+    let mut digits_str = format!("{value_abs:.fmt_prec$}");
+    digits_str.extend(std::iter::repeat_n('0', prec - fmt_prec));
     if prec == 0 && ensure_pt {
         digits_str.push('.');
     } else if prec != 0 && trim_zeros {
@@ -1090,9 +1097,14 @@ fn render_float_exp(
     let value_abs = value.abs();
     let is_neg = value.is_sign_negative() && value != 0.0;
 
-    let digits_str = format!("{value_abs:.prec$e}");
+    // A `f64` never has more than 767 significant digits (and `format!` rejects
+    // precisions above `u16::MAX`), so the remaining ones are zeros.
+    let fmt_prec = prec.min(MAX_FLOAT_DIGITS);
+    let digits_str = format!("{value_abs:.fmt_prec$e}");
     let e_pos = digits_str.bytes().position(|chr| chr == b'e').unwrap();
-    let mut mant_str = &digits_str[..e_pos];
+    let mut mant_string = String::from(&digits_str[..e_pos]);
+    mant_string.extend(std::iter::repeat_n('0', prec - fmt_prec));
+    let mut mant_str = mant_string.as_str();
     if prec != 0 && trim_zeros {
         mant_str = mant_str.trim_end_matches('0');
         if !ensure_pt {
